@@ -87,7 +87,7 @@ class PositiveScalar(RegionAttribute):
             raise ValueError(f'{self.name!r} must be a scalar integer or '
                              'float')
 
-        if not np.isscalar(value) or value <= 0:
+        if not np.isscalar(value) or not value > 0 or not np.isfinite(value):
             raise ValueError(f'{self.name!r} must be a strictly positive '
                              'scalar')
 
@@ -147,7 +147,7 @@ class PositiveScalarAngle(RegionAttribute):
             if not value.unit.physical_type == 'angle':
                 raise ValueError(f'{self.name!r} must have angular units')
 
-            if not value > 0:
+            if not value > 0 or not np.isfinite(value):
                 raise ValueError(f'{self.name!r} must be strictly positive')
         else:
             raise ValueError(f'{self.name!r} must be a strictly positive '
